@@ -29,6 +29,7 @@ TEMPLATES = {
     "K": "Block: k{i}", "Wa": "Watch: X > 1", "Al": "Alarm: X > 1", "MA": "Macro: A", "MB": "Macro: B",
     "Bs": "Base: s", "Bm": "Base: min", "BL": "Base: L", "Si": "Simulate: X = 5", "So": "Simulate off: X",
     "Boom": "Boom: 2", "Bogus": "Bogus",
+    "Wl": "Wait: 2s", "Pl": "Pause: 2s", "Hl": "Hold: 2s", "L6": "Long: 6",      # long enough to cancel / force (C12)
     "SiT": "Simulate: Temp = 5 degC", "SoT": "Simulate off: Temp",      # simulation with a unit (C16/C36)
     # C10/C11: condition on the hardware-fed tag In1, short variants
     "WaI": "Watch: In1 > 1", "SiI": "Simulate: In1 = 0", "L2": "Long: 2", "W1": "Wait: 0.1s",
@@ -121,7 +122,7 @@ def line_info(lines: Sequence[tuple[str, str]]) -> list[dict]:
         arg = body.split(":", 1)[1].strip() if ":" in body and not body.startswith("#") else ""
         opener = name in ("Block", "Watch", "Alarm", "Macro")
         info.append({"idx": idx, "id": lid, "indent": indent, "parent": parent, "name": name, "arg": arg,
-                     "opener": opener, "blank": stripped == "" or stripped.startswith("#")})
+                     "opener": opener, "blank": stripped == "" or stripped.startswith("#"), "raw": content})
         if opener:
             stack.append((indent, idx))
     return info
